@@ -579,3 +579,557 @@ Qed.
 
 Lemma mermaid_ids_distinct t : graph_ids_distinct (mermaid_nodes t) = true.
 Proof. unfold graph_ids_distinct. apply nodup_str_NoDup. apply mermaid_ids_NoDup. Qed.
+
+(* ============================================================================================== *)
+(* 4. edges: the parent-child pairs of a tree of ids are the parent links resolved through the
+      pre-order list of ids *)
+
+Definition res_link (ids : list str) (pc : nat * nat) : str * str :=
+  (nth (fst pc) ids [], nth (snd pc) ids []).
+
+Fixpoint tree_edges (t : tree) : list (str * str) :=
+  match t with
+  | T _ n _ ks =>
+      (fix go (l : list tree) : list (str * str) :=
+         match l with [] => [] | k :: r => (n, tname k) :: tree_edges k ++ go r end) ks
+  end.
+Definition kids_edges (n : str) (ks : list tree) : list (str * str) :=
+  (fix go (l : list tree) : list (str * str) :=
+     match l with [] => [] | k :: r => (n, tname k) :: tree_edges k ++ go r end) ks.
+Lemma tree_edges_eq g n a ks : tree_edges (T g n a ks) = kids_edges n ks.
+Proof. reflexivity. Qed.
+Lemma kids_edges_cons n k r : kids_edges n (k :: r) = (n, tname k) :: tree_edges k ++ kids_edges n r.
+Proof. reflexivity. Qed.
+
+Definition kids_links (i : nat) (ks : list tree) (next : nat) : list (nat * nat) * nat :=
+  (fix go (l : list tree) (next : nat) : list (nat * nat) * nat :=
+     match l with
+     | [] => ([], next)
+     | k :: r => let (a, n1) := plinks next k in
+                 let (b, n2) := go r n1 in ((i, next) :: a ++ b, n2)
+     end) ks next.
+Lemma plinks_eq i g n a ks : plinks i (T g n a ks) = kids_links i ks (S i).
+Proof. reflexivity. Qed.
+Lemma kids_links_cons i k r next :
+  kids_links i (k :: r) next =
+  let (a, n1) := plinks next k in let (b, n2) := kids_links i r n1 in ((i, next) :: a ++ b, n2).
+Proof. reflexivity. Qed.
+
+Definition names_pre (t : tree) : list str := map tname (pre t).
+Definition names_pre_kids (ks : list tree) : list str := map tname (flat_map pre ks).
+
+Lemma names_pre_eq g n a ks : names_pre (T g n a ks) = n :: names_pre_kids ks.
+Proof. reflexivity. Qed.
+Lemma names_pre_kids_cons k r : names_pre_kids (k :: r) = names_pre k ++ names_pre_kids r.
+Proof. unfold names_pre_kids, names_pre. cbn [flat_map]. apply map_app. Qed.
+Lemma names_pre_length t : length (names_pre t) = tsize t.
+Proof. unfold names_pre. rewrite map_length. apply pre_length. Qed.
+Lemma names_pre_head t : exists r, names_pre t = tname t :: r.
+Proof. destruct t as [g n a ks]. eexists. reflexivity. Qed.
+
+Definition links_tree_ok (t : tree) : Prop :=
+  forall i A B, length A = i ->
+    map (res_link (A ++ names_pre t ++ B)) (fst (plinks i t)) = tree_edges t
+    /\ snd (plinks i t) = i + tsize t.
+
+Lemma links_kids_ok ks : Forall links_tree_ok ks ->
+  forall i n next P B, length P = next -> i < next -> nth i P [] = n ->
+    map (res_link (P ++ names_pre_kids ks ++ B)) (fst (kids_links i ks next)) = kids_edges n ks
+    /\ snd (kids_links i ks next) = next + fsize ks.
+Proof.
+  induction 1 as [|k r Hk Hr IH]; intros i n next P B HP Hi Hn.
+  - cbn. split; [reflexivity|lia].
+  - rewrite kids_links_cons, kids_edges_cons, names_pre_kids_cons.
+    destruct (plinks next k) as [a n1] eqn:E1.
+    destruct (kids_links i r n1) as [b n2] eqn:E2.
+    destruct (Hk next P (names_pre_kids r ++ B) HP) as [Ha Hn1]. rewrite E1 in Ha, Hn1. cbn [fst snd] in Ha, Hn1.
+    assert (HP' : length (P ++ names_pre k) = n1) by (rewrite app_length, names_pre_length; lia).
+    destruct (IH i n n1 (P ++ names_pre k) B HP') as [Hb Hn2].
+    { lia. }
+    { rewrite app_nth1 by lia. exact Hn. }
+    rewrite E2 in Hb, Hn2. cbn [fst snd] in Hb, Hn2.
+    cbn [fst snd map]. split.
+    + f_equal.
+      * unfold res_link. cbn [fst snd]. f_equal.
+        -- rewrite app_nth1 by lia. exact Hn.
+        -- rewrite app_nth2 by lia. replace (next - length P) with 0 by lia.
+           destruct (names_pre_head k) as [x ->]. reflexivity.
+      * rewrite map_app. f_equal.
+        -- rewrite <- Ha. rewrite <- !app_assoc. reflexivity.
+        -- rewrite <- Hb. rewrite <- !app_assoc. reflexivity.
+    + cbn [fsize fold_right]. fold (fsize r). lia.
+Qed.
+
+Lemma links_tree_ok_all t : links_tree_ok t.
+Proof.
+  induction t as [g n a ks IH] using tree_ind'. intros i A B HA.
+  rewrite plinks_eq, tree_edges_eq, names_pre_eq.
+  destruct (links_kids_ok ks IH i n (S i) (A ++ [n]) B) as [H1 H2].
+  - rewrite app_length. cbn. lia.
+  - lia.
+  - rewrite app_nth2 by lia. replace (i - length A) with 0 by lia. reflexivity.
+  - split.
+    + rewrite <- H1. rewrite <- !app_assoc. reflexivity.
+    + rewrite H2. cbn [tsize]. fold (fsize ks). lia.
+Qed.
+
+Lemma tree_edges_links t :
+  tree_edges t = map (res_link (names_pre t)) (parent_links t).
+Proof.
+  destruct (links_tree_ok_all t 0 [] [] eq_refl) as [H _]. cbn [app] in H.
+  rewrite app_nil_r in H. symmetry. exact H.
+Qed.
+
+(* same shape: the parent links only depend on it *)
+Fixpoint same_shape (a b : tree) : Prop :=
+  match a, b with
+  | T _ _ _ ks, T _ _ _ ls =>
+      (fix go (x y : list tree) : Prop :=
+         match x, y with
+         | [], [] => True
+         | p :: x', q :: y' => same_shape p q /\ go x' y'
+         | _, _ => False
+         end) ks ls
+  end.
+Definition same_shape_kids (x y : list tree) : Prop :=
+  (fix go (x y : list tree) : Prop :=
+     match x, y with
+     | [], [] => True
+     | p :: x', q :: y' => same_shape p q /\ go x' y'
+     | _, _ => False
+     end) x y.
+
+Lemma same_shape_plinks : forall a b, same_shape a b -> forall i, plinks i a = plinks i b.
+Proof.
+  induction a as [g n at_ ks IH] using tree_ind'. intros [g' n' at' ls] H i.
+  rewrite !plinks_eq. cbn [same_shape] in H. fold (same_shape_kids ks ls) in H.
+  generalize (S i) as next. revert ls H.
+  induction IH as [|k r Hk Hr IHr]; intros [|l ls] H next; try (cbn in H; contradiction); [reflexivity|].
+  destruct H as [H1 H2]. rewrite !kids_links_cons. rewrite (Hk l H1 next).
+  destruct (plinks next l) as [a1 n1]. rewrite (IHr ls H2 n1). reflexivity.
+Qed.
+
+Lemma graph_edges_ok_of_eq t verts edges :
+  edges = map (res_link (map fst verts)) (parent_links t) -> graph_edges_ok t verts edges = true.
+Proof.
+  intros ->. unfold graph_edges_ok.
+  change (fun pc : nat * nat => (nth (fst pc) (map fst verts) [], nth (snd pc) (map fst verts) []))
+    with (res_link (map fst verts)).
+  rewrite Nat.eqb_refl. cbn. apply forallb_forall. intros e He.
+  apply existsb_exists. exists e. split; [exact He|].
+  unfold pair_eqb. rewrite !str_eqb_refl. reflexivity.
+Qed.
+
+(* ============================================================================================== *)
+(* 5. tree_to_dot: the state-threading traversal, seen as building a tree of ids *)
+
+Definition dot_go_kids (sep : str) (cid path : str) (ks : list tree) (s : dstate) : dstate :=
+  (fix go (l : list tree) (s : dstate) : dstate :=
+     match l with
+     | [] => s
+     | k :: r => go r (dot_go sep (Some cid) path k s)
+     end) ks s.
+
+Lemma dot_go_eq sep pido pp g n a ks s :
+  dot_go sep pido pp (T g n a ks) s =
+  let path := pp ++ sep ++ n in
+  let (d', cid) := dot_name (ds_dict s) n path in
+  dot_go_kids sep cid path ks
+    (DS d' (ds_nodes s ++ [(cid, n)])
+        (match pido with Some p => ds_edges s ++ [(p, cid)] | None => ds_edges s end)).
+Proof. cbn [dot_go]. destruct (dot_name (ds_dict s) n (pp ++ sep ++ n)). reflexivity. Qed.
+
+Lemma dot_go_kids_cons sep cid path k r s :
+  dot_go_kids sep cid path (k :: r) s = dot_go_kids sep cid path r (dot_go sep (Some cid) path k s).
+Proof. reflexivity. Qed.
+
+(* the same traversal, returning the dictionary, the tree of ids and the (id, label) list *)
+Fixpoint dot_ann (sep pp : str) (t : tree) (d : ndict) : ndict * tree * list (str * str) :=
+  match t with
+  | T _ n _ ks =>
+      let path := pp ++ sep ++ n in
+      let (d', cid) := dot_name d n path in
+      let '(d'', ks', ns) :=
+        (fix go (l : list tree) (d : ndict) : ndict * list tree * list (str * str) :=
+           match l with
+           | [] => (d, [], [])
+           | k :: r => let '(d1, k', n1) := dot_ann sep path k d in
+                       let '(d2, r', n2) := go r d1 in (d2, k' :: r', n1 ++ n2)
+           end) ks d' in
+      (d'', T None cid [] ks', (cid, n) :: ns)
+  end.
+Definition dot_ann_kids (sep path : str) (ks : list tree) (d : ndict) : ndict * list tree * list (str * str) :=
+  (fix go (l : list tree) (d : ndict) : ndict * list tree * list (str * str) :=
+     match l with
+     | [] => (d, [], [])
+     | k :: r => let '(d1, k', n1) := dot_ann sep path k d in
+                 let '(d2, r', n2) := go r d1 in (d2, k' :: r', n1 ++ n2)
+     end) ks d.
+Lemma dot_ann_eq sep pp g n a ks d :
+  dot_ann sep pp (T g n a ks) d =
+  let path := pp ++ sep ++ n in
+  let (d', cid) := dot_name d n path in
+  let '(d'', ks', ns) := dot_ann_kids sep path ks d' in
+  (d'', T None cid [] ks', (cid, n) :: ns).
+Proof. reflexivity. Qed.
+Lemma dot_ann_kids_cons sep path k r d :
+  dot_ann_kids sep path (k :: r) d =
+  let '(d1, k', n1) := dot_ann sep path k d in
+  let '(d2, r', n2) := dot_ann_kids sep path r d1 in (d2, k' :: r', n1 ++ n2).
+Proof. reflexivity. Qed.
+
+Definition dot_tree_ok (t : tree) : Prop :=
+  forall sep pido pp s,
+    let '(d2, it, ns) := dot_ann sep pp t (ds_dict s) in
+    dot_go sep pido pp t s =
+      DS d2 (ds_nodes s ++ ns)
+         (ds_edges s ++ (match pido with Some p => [(p, tname it)] | None => [] end) ++ tree_edges it)
+    /\ same_shape it t /\ map fst ns = names_pre it /\ map snd ns = names_pre t.
+
+Lemma dot_kids_ok ks : Forall dot_tree_ok ks ->
+  forall sep cid path s,
+    let '(d2, its, ns) := dot_ann_kids sep path ks (ds_dict s) in
+    dot_go_kids sep cid path ks s = DS d2 (ds_nodes s ++ ns) (ds_edges s ++ kids_edges cid its)
+    /\ same_shape_kids its ks /\ map fst ns = names_pre_kids its /\ map snd ns = names_pre_kids ks.
+Proof.
+  induction 1 as [|k r Hk Hr IH]; intros sep cid path s.
+  - cbn. rewrite !app_nil_r. destruct s. repeat split; reflexivity.
+  - rewrite dot_ann_kids_cons, dot_go_kids_cons.
+    specialize (Hk sep (Some cid) path s).
+    destruct (dot_ann sep path k (ds_dict s)) as [[d1 k'] n1].
+    destruct Hk as [E1 [S1 [F1 L1]]].
+    specialize (IH sep cid path (dot_go sep (Some cid) path k s)).
+    rewrite E1 in IH. cbn [ds_dict ds_nodes ds_edges] in IH.
+    destruct (dot_ann_kids sep path r d1) as [[d2 r'] n2].
+    destruct IH as [E2 [S2 [F2 L2]]].
+    rewrite E1, E2. repeat split.
+    + f_equal.
+      * rewrite <- app_assoc. reflexivity.
+      * rewrite kids_edges_cons. rewrite <- !app_assoc. reflexivity.
+    + exact S1.
+    + exact S2.
+    + rewrite map_app, F1, F2, names_pre_kids_cons. reflexivity.
+    + rewrite map_app, L1, L2, names_pre_kids_cons. reflexivity.
+Qed.
+
+Lemma dot_tree_ok_all t : dot_tree_ok t.
+Proof.
+  induction t as [g n a ks IH] using tree_ind'. intros sep pido pp s.
+  rewrite dot_ann_eq, dot_go_eq. cbv zeta.
+  destruct (dot_name (ds_dict s) n (pp ++ sep ++ n)) as [d' cid].
+  pose proof (dot_kids_ok ks IH sep cid (pp ++ sep ++ n)
+                (DS d' (ds_nodes s ++ [(cid, n)])
+                    (match pido with Some p => ds_edges s ++ [(p, cid)] | None => ds_edges s end))) as HK.
+  cbn [ds_dict ds_nodes ds_edges] in HK.
+  destruct (dot_ann_kids sep (pp ++ sep ++ n) ks d') as [[d2 its] ns].
+  destruct HK as [E [S [F L]]]. rewrite E. repeat split.
+  - f_equal.
+    + rewrite <- app_assoc. reflexivity.
+    + rewrite tree_edges_eq. cbn [tname]. destruct pido; rewrite <- ?app_assoc; reflexivity.
+  - exact S.
+  - cbn [map fst]. rewrite names_pre_eq, F. reflexivity.
+  - cbn [map snd]. rewrite names_pre_eq, L. reflexivity.
+Qed.
+
+(* vertices and edges of tree_to_dot (names as bigtree passes them to pydot) *)
+Theorem dot_vertices_edges_exact sep t :
+  graph_vertices_ok (compact t) (dot_raw_nodes sep t) = true
+  /\ graph_edges_ok (compact t) (dot_raw_nodes sep t) (dot_edges sep t) = true.
+Proof.
+  unfold dot_raw_nodes, dot_edges, dot_graph.
+  pose proof (dot_tree_ok_all (compact t) sep None [] (DS [] [] [])) as H.
+  cbn [ds_dict ds_nodes ds_edges] in H.
+  destruct (dot_ann sep [] (compact t) []) as [[d2 it] ns].
+  destruct H as [E [S [F L]]]. rewrite E. cbn [ds_nodes ds_edges app].
+  split.
+  - unfold graph_vertices_ok. rewrite L. apply list_eqb_refl. apply str_eqb_refl.
+  - apply graph_edges_ok_of_eq. rewrite F, tree_edges_links.
+    unfold parent_links. rewrite (same_shape_plinks _ _ S 0). reflexivity.
+Qed.
+
+(* pydot keeps a name without ':' as it is *)
+Lemma find_char_none c s : ~ In c s -> find_char c s = None.
+Proof.
+  induction s as [|x s IH]; intros H; cbn; [reflexivity|].
+  destruct (N.eqb x c) eqn:E.
+  - apply N.eqb_eq in E. subst. exfalso. apply H. left. reflexivity.
+  - rewrite IH; [reflexivity|]. intros Hin. apply H. right. exact Hin.
+Qed.
+Lemma pydot_name_plain s : ~ In 58%N s -> pydot_name s = s.
+Proof.
+  intros H. unfold pydot_name. rewrite (find_char_none _ _ H).
+  destruct s as [|x s]; [reflexivity|]. destruct x as [|p]; [reflexivity|].
+  do 7 (try (destruct p as [p|p|]; try reflexivity)).
+Qed.
+
+(* ============================================================================================== *)
+(* 6. tree_to_dot: ids are pairwise different under the guards *)
+
+Definition lp_kids (sep path : str) (ks : list tree) : list (str * str) :=
+  (fix go (l : list tree) : list (str * str) :=
+     match l with [] => [] | k :: r => label_paths sep path k ++ go r end) ks.
+Lemma label_paths_eq sep pp g n a ks :
+  label_paths sep pp (T g n a ks) = (n, pp ++ sep ++ n) :: lp_kids sep (pp ++ sep ++ n) ks.
+Proof. reflexivity. Qed.
+Lemma lp_kids_cons sep path k r : lp_kids sep path (k :: r) = label_paths sep path k ++ lp_kids sep path r.
+Proof. reflexivity. Qed.
+
+(* the assignment of names along a list of (label, path) *)
+Fixpoint assign (d : ndict) (lp : list (str * str)) : ndict * list (str * str) :=
+  match lp with
+  | [] => (d, [])
+  | (l, p) :: r => let (d', cid) := dot_name d l p in
+                   let (d'', ns) := assign d' r in (d'', (cid, l) :: ns)
+  end.
+
+Lemma assign_app d a b :
+  assign d (a ++ b) = let (d1, n1) := assign d a in let (d2, n2) := assign d1 b in (d2, n1 ++ n2).
+Proof.
+  revert d. induction a as [|[l p] a IH]; intros d; cbn [app assign].
+  - destruct (assign d b). reflexivity.
+  - destruct (dot_name d l p) as [d' cid]. rewrite IH.
+    destruct (assign d' a) as [d1 n1]. destruct (assign d1 b) as [d2 n2]. reflexivity.
+Qed.
+
+Definition ann_tree_ok (t : tree) : Prop :=
+  forall sep pp d, let '(d2, _, ns) := dot_ann sep pp t d in assign d (label_paths sep pp t) = (d2, ns).
+
+Lemma ann_kids_ok ks : Forall ann_tree_ok ks ->
+  forall sep path d, let '(d2, _, ns) := dot_ann_kids sep path ks d in assign d (lp_kids sep path ks) = (d2, ns).
+Proof.
+  induction 1 as [|k r Hk Hr IH]; intros sep path d; [reflexivity|].
+  rewrite dot_ann_kids_cons, lp_kids_cons, assign_app.
+  specialize (Hk sep path d). destruct (dot_ann sep path k d) as [[d1 k'] n1]. rewrite Hk.
+  specialize (IH sep path d1). destruct (dot_ann_kids sep path r d1) as [[d2 r'] n2]. rewrite IH.
+  reflexivity.
+Qed.
+
+Lemma ann_tree_ok_all t : ann_tree_ok t.
+Proof.
+  induction t as [g n a ks IH] using tree_ind'. intros sep pp d.
+  rewrite dot_ann_eq, label_paths_eq. cbv zeta. cbn [assign].
+  destruct (dot_name d n (pp ++ sep ++ n)) as [d' cid].
+  pose proof (ann_kids_ok ks IH sep (pp ++ sep ++ n) d') as HK.
+  destruct (dot_ann_kids sep (pp ++ sep ++ n) ks d') as [[d2 its] ns]. rewrite HK. reflexivity.
+Qed.
+
+Lemma dot_raw_nodes_assign sep t :
+  dot_raw_nodes sep t = snd (assign [] (label_paths sep [] (compact t))).
+Proof.
+  unfold dot_raw_nodes, dot_graph.
+  pose proof (dot_tree_ok_all (compact t) sep None [] (DS [] [] [])) as H.
+  pose proof (ann_tree_ok_all (compact t) sep [] []) as A.
+  cbn [ds_dict ds_nodes ds_edges] in H.
+  destruct (dot_ann sep [] (compact t) []) as [[d2 it] ns].
+  destruct H as [E _]. rewrite E, A. reflexivity.
+Qed.
+
+(* dictionary facts *)
+Lemma str_eqb_sym a b : str_eqb a b = str_eqb b a.
+Proof.
+  destruct (str_eqb a b) eqn:E.
+  - apply str_eqb_eq in E. subst. symmetry. apply str_eqb_refl.
+  - destruct (str_eqb b a) eqn:E2; [|reflexivity]. apply str_eqb_eq in E2. subst.
+    rewrite str_eqb_refl in E. discriminate.
+Qed.
+
+Lemma dget_dset d k v k2 : dget (dset d k v) k2 = if str_eqb k2 k then v else dget d k2.
+Proof.
+  induction d as [|[k' v'] d IH]; cbn [dset dget].
+  - reflexivity.
+  - destruct (str_eqb k k') eqn:E.
+    + apply str_eqb_eq in E. subst k'. cbn [dget]. destruct (str_eqb k2 k); reflexivity.
+    + cbn [dget]. destruct (str_eqb k2 k') eqn:E2.
+      * apply str_eqb_eq in E2. subst k'. rewrite str_eqb_sym, E. reflexivity.
+      * exact IH.
+Qed.
+
+Definition count_str (l : str) (seen : list str) : nat := length (filter (str_eqb l) seen).
+
+Lemma index_str_app_new p l : ~ In p l -> index_str p (l ++ [p]) = length l.
+Proof.
+  induction l as [|x l IH]; intros H; cbn.
+  - rewrite str_eqb_refl. reflexivity.
+  - destruct (str_eqb p x) eqn:E.
+    + apply str_eqb_eq in E. subst. exfalso. apply H. left. reflexivity.
+    + rewrite IH; [reflexivity|]. intros Hin. apply H. right. exact Hin.
+Qed.
+
+Lemma mem_str_false p l : ~ In p l -> mem_str p l = false.
+Proof.
+  intros H. unfold mem_str. destruct (existsb (str_eqb p) l) eqn:E; [|reflexivity].
+  apply existsb_exists in E as [y [Hy Ey]]. apply str_eqb_eq in Ey. subst. contradiction.
+Qed.
+
+(* what the ids are when all paths differ: label ++ number of earlier nodes with that label *)
+Fixpoint ids_spec (seen : list str) (lp : list (str * str)) : list (str * str) :=
+  match lp with
+  | [] => []
+  | (l, p) :: r => (l ++ str_of_nat (count_str l seen), l) :: ids_spec (l :: seen) r
+  end.
+
+Definition dict_inv (d : ndict) (seen : list (str * str)) : Prop :=
+  (forall l, length (dget d l) = count_str l (map fst seen))
+  /\ (forall l p, In p (dget d l) -> In p (map snd seen)).
+
+Lemma assign_spec lp : forall d seen,
+  dict_inv d seen -> NoDup (map snd lp) -> (forall p, In p (map snd lp) -> ~ In p (map snd seen)) ->
+  snd (assign d lp) = ids_spec (map fst seen) lp.
+Proof.
+  induction lp as [|[l p] r IH]; intros d seen [I1 I2] ND HF; [reflexivity|].
+  cbn [assign ids_spec]. unfold dot_name.
+  assert (Hp : ~ In p (dget d l)).
+  { intros Hin. apply I2 in Hin. apply (HF p); [left; reflexivity|exact Hin]. }
+  rewrite (mem_str_false _ _ Hp), (index_str_app_new _ _ Hp), I1.
+  set (d' := dset d l (dget d l ++ [p])).
+  specialize (IH d' ((l, p) :: seen)).
+  destruct (assign d' r) as [d'' ns]. cbn [snd] in *. f_equal.
+  apply IH.
+  - split.
+    + intros l2. unfold d'. rewrite dget_dset. cbn [map fst]. unfold count_str. cbn [filter].
+      destruct (str_eqb l2 l) eqn:E.
+      * apply str_eqb_eq in E. subst l2. rewrite app_length. cbn [length]. rewrite I1. unfold count_str. lia.
+      * apply I1.
+    + intros l2 p2. unfold d'. rewrite dget_dset. cbn [map snd].
+      destruct (str_eqb l2 l).
+      * intros Hin. apply in_app_or in Hin as [Hin|[<-|[]]]; [right; eapply I2; exact Hin|left; reflexivity].
+      * intros Hin. right. eapply I2. exact Hin.
+  - cbn [map snd] in ND. inversion ND. assumption.
+  - intros q Hq [<-|Hin].
+    + cbn [map snd] in ND. inversion ND. contradiction.
+    + apply (HF q); [right; exact Hq|exact Hin].
+Qed.
+
+(* labels that do not end in a digit *)
+Definition no_digit_end (l : str) : Prop := tail_ok (rev l).
+
+Lemma ends_in_digit_false l : ends_in_digit l = false -> no_digit_end l.
+Proof.
+  unfold ends_in_digit, no_digit_end, tail_ok. destruct (rev l) as [|c r]; [trivial|].
+  intros H Hd. apply is_digitb_spec in Hd. unfold is_digit_b in H. unfold is_digitb in Hd. congruence.
+Qed.
+
+Lemma label_number_inj l1 l2 c1 c2 :
+  no_digit_end l1 -> no_digit_end l2 ->
+  l1 ++ str_of_nat c1 = l2 ++ str_of_nat c2 -> l1 = l2 /\ c1 = c2.
+Proof.
+  intros H1 H2 E. apply (f_equal (@rev N)) in E. rewrite !rev_app_distr in E.
+  assert (D : forall c, Forall is_digit (rev (str_of_nat c))).
+  { intros c. apply Forall_forall. intros x Hx. apply in_rev in Hx.
+    revert x Hx. apply Forall_forall. apply str_of_nat_digits. }
+  destruct (digits_split _ _ _ _ (D c1) (D c2) H1 H2 E) as [Ea Eb].
+  split.
+  - rewrite <- (rev_involutive l1), <- (rev_involutive l2), Eb. reflexivity.
+  - apply str_of_nat_inj. rewrite <- (rev_involutive (str_of_nat c1)), <- (rev_involutive (str_of_nat c2)), Ea.
+    reflexivity.
+Qed.
+
+Lemma ids_spec_form lp : forall seen x,
+  In x (map fst (ids_spec seen lp)) ->
+  exists l c, x = l ++ str_of_nat c /\ In l (map fst lp) /\ count_str l seen <= c.
+Proof.
+  induction lp as [|[l p] r IH]; intros seen x Hx; [destruct Hx|].
+  cbn [ids_spec map fst] in Hx. destruct Hx as [<-|Hx].
+  - exists l, (count_str l seen). split; [reflexivity|]. split; [left; reflexivity|lia].
+  - apply IH in Hx as [l' [c [-> [Hl Hc]]]]. exists l', c. split; [reflexivity|]. split; [right; exact Hl|].
+    unfold count_str in *. cbn [filter] in Hc. destruct (str_eqb l' l); cbn [length] in Hc; lia.
+Qed.
+
+Lemma ids_spec_NoDup lp : forall seen,
+  (forall l, In l (map fst lp) -> no_digit_end l) -> NoDup (map fst (ids_spec seen lp)).
+Proof.
+  induction lp as [|[l p] r IH]; intros seen HG; [constructor|].
+  cbn [ids_spec map fst]. constructor.
+  - intros Hin. apply ids_spec_form in Hin as [l' [c [E [Hl Hc]]]].
+    destruct (label_number_inj l l' (count_str l seen) c) as [<- <-].
+    + apply HG. left. reflexivity.
+    + apply HG. right. exact Hl.
+    + exact E.
+    + unfold count_str in Hc. cbn [filter] in Hc. rewrite str_eqb_refl in Hc. cbn [length] in Hc. lia.
+  - apply IH. intros l' Hl. apply HG. right. exact Hl.
+Qed.
+
+Lemma label_paths_labels sep : forall t pp, map fst (label_paths sep pp t) = names_pre t.
+Proof.
+  induction t as [g n a ks IH] using tree_ind'. intros pp.
+  rewrite label_paths_eq, names_pre_eq. cbn [map fst]. f_equal.
+  generalize (pp ++ sep ++ n) as path. intros path.
+  induction IH as [|k r Hk Hr IHr]; [reflexivity|].
+  rewrite lp_kids_cons, names_pre_kids_cons, map_app, Hk, IHr. reflexivity.
+Qed.
+
+Theorem dot_raw_ids_injective sep t :
+  no_label_ends_in_digit t = true -> paths_distinct sep t = true ->
+  graph_ids_distinct (dot_raw_nodes sep t) = true.
+Proof.
+  intros HG HP. unfold graph_ids_distinct. apply nodup_str_NoDup.
+  rewrite dot_raw_nodes_assign.
+  rewrite (assign_spec (label_paths sep [] (compact t)) [] []).
+  - apply ids_spec_NoDup. intros l Hl. rewrite label_paths_labels in Hl.
+    unfold names_pre in Hl. apply in_map_iff in Hl as [x [<- Hx]].
+    unfold no_label_ends_in_digit in HG. rewrite forallb_forall in HG.
+    apply ends_in_digit_false. apply negb_true_iff. apply HG. exact Hx.
+  - split; [intros l; reflexivity|intros l p []].
+  - apply nodup_str_NoDup. exact HP.
+  - intros p _ [].
+Qed.
+
+(* ids are label ++ digits, so pydot leaves them alone when no label contains a colon *)
+Lemma assign_form lp : forall d x, In x (snd (assign d lp)) -> exists c, fst x = snd x ++ str_of_nat c.
+Proof.
+  induction lp as [|[l p] r IH]; intros d x Hx; [destruct Hx|].
+  cbn [assign] in Hx. unfold dot_name in Hx.
+  match type of Hx with context [assign ?dd r] => specialize (IH dd); destruct (assign dd r) as [d'' ns] end.
+  cbn [snd] in *. destruct Hx as [<-|Hx].
+  - eexists. reflexivity.
+  - apply IH. exact Hx.
+Qed.
+
+Lemma colon_not_digit : ~ is_digit 58%N.
+Proof. unfold is_digit. lia. Qed.
+
+Lemma dot_nodes_plain sep t :
+  no_label_has_colon t = true -> dot_nodes sep t = dot_raw_nodes sep t.
+Proof.
+  intros HC. unfold dot_nodes. rewrite <- (map_id (dot_raw_nodes sep t)) at 2.
+  apply map_ext_in. intros [i l] Hx. cbn [fst snd]. f_equal.
+  apply pydot_name_plain.
+  pose proof Hx as Hx'. rewrite dot_raw_nodes_assign in Hx'. apply assign_form in Hx' as [c Hc].
+  cbn [fst snd] in Hc. subst i. intros Hin. apply in_app_or in Hin as [Hin|Hin].
+  - destruct (dot_vertices_edges_exact sep t) as [HV _]. unfold graph_vertices_ok in HV.
+    assert (Hl : In l (map tname (pre (compact t)))).
+    { assert (E : map snd (dot_raw_nodes sep t) = map tname (pre (compact t))).
+      { rewrite dot_raw_nodes_assign.
+        assert (G : forall lp d, map snd (snd (assign d lp)) = map fst lp).
+        { induction lp as [|[l' p'] r IHr]; intros d; [reflexivity|].
+          cbn [assign]. destruct (dot_name d l' p') as [d' cid]. specialize (IHr d').
+          destruct (assign d' r) as [d'' ns]. cbn [snd map fst] in *. f_equal. exact IHr. }
+        rewrite G, label_paths_labels. reflexivity. }
+      rewrite <- E. apply in_map_iff. exists (l ++ str_of_nat c, l). split; [reflexivity|exact Hx]. }
+    apply in_map_iff in Hl as [x [<- Hxx]].
+    unfold no_label_has_colon in HC. rewrite forallb_forall in HC. specialize (HC x Hxx).
+    apply negb_true_iff in HC. assert (existsb (N.eqb 58%N) (tname x) = true); [|congruence].
+    apply existsb_exists. exists 58%N. split; [exact Hin|reflexivity].
+  - pose proof (str_of_nat_digits c) as HD. rewrite Forall_forall in HD.
+    apply colon_not_digit. apply HD. exact Hin.
+Qed.
+
+Theorem dot_ids_injective_partial sep t :
+  no_label_ends_in_digit t = true -> paths_distinct sep t = true -> no_label_has_colon t = true ->
+  graph_ids_distinct (dot_nodes sep t) = true.
+Proof.
+  intros H1 H2 H3. rewrite (dot_nodes_plain sep t H3). apply dot_raw_ids_injective; assumption.
+Qed.
+
+(* ============================================================================================== *)
+(* 7. the calls as a whole *)
+
+Theorem yield_tree_prop st t start md out :
+  yield_tree st t start md = Ret out ->
+  exists s, get_subtree t start md = Some s /\ vstyle_ok st = true
+            /\ out = yield_lines st (compact s) /\ prop_C18_v st (compact s) out = true.
+Proof.
+  unfold yield_tree. destruct (get_subtree t start md) as [s|]; [|discriminate].
+  destruct (vstyle_ok st) eqn:Hok; [|discriminate]. intros H. inversion H; subst.
+  exists s. repeat split. apply prop_C18_v_model. exact Hok.
+Qed.
